@@ -1,6 +1,101 @@
-/- Line-protocol driver for engine `plan` — not built yet (stub). -/
+/-
+  Line-protocol driver for engine `plan` (C06: the chosen plan never changes the answer).
+
+  case   := "plan" DB IX "|" OP (" ; " OP)*
+  DB     := as in Driver/Sql (tables t0, t1, …; columns c0, c1, …)
+  IX     := "-" | IXD ("," IXD)*            unique indexes;  IXD := <table> ":" <col> ("+" <col>)*
+  OP     := STMT                            sel / ins / upd / del in the syntax of Driver/Sql
+          | "begin" | "rollback" | "commit" a session (= one transaction); the statements in between run inside it
+          | "vacuum"
+          | "analyze" <permille> <max>      ANALYZE with sample rate permille/1000 and at most <max> sampled rows
+          | "mkix"                          the point at which the *late* database of the harness creates the indexes
+
+  answer := OUT (" ; " OUT)*   one per op
+  OUT    := "same " R          a query: every plan variant of the harness returned R (R as in Driver/Sql: Rset:/Rord:/Rlist:)
+          | "A"<n> | "E"<class>            INSERT / UPDATE / DELETE
+          | "ok"                           begin, rollback, commit, vacuum, analyze, mkix
+          | "-"                            not compared (after a failed DML statement)
+
+  The specification is the reference evaluator of C05 run over the history: indexes, statistics, VACUUM and the
+  placement of index creation do not exist in it (`stats_irrelevant`), a rolled-back session leaves no trace.
+  On top of that the driver evaluates every plain query (no aggregates) through the plan algebra of Model/Plan: the bound
+  plan is rewritten by every transformation rule wherever it applies, table scans under a filter are replaced by index
+  scans over the maintained index model, and the result must be the reference answer (`optimize_sound`,
+  `index_scan_eq_filter`); a disagreement would be reported as `MODEL-DISAGREES` (it cannot happen for Defects.none).
+-/
+import AxVerif.Driver.Sql
+namespace AxVerif.Plan
+open AxVerif AxVerif.Sql
+
+inductive Op where
+  | stmt (s : Stmt)
+  | begin | rollback | commit | vacuum | analyze | mkix
+
+def parseIx (w : String) : Option (Nat × List Nat) :=
+  match w.splitOn ":" with
+  | [t, cs] =>
+    match t.toNat?, allSome ((cs.splitOn "+").map String.toNat?) with
+    | some t, some cs => if cs.isEmpty then none else some (t, cs)
+    | _, _ => none
+  | _ => none
+
+def parseIxs (w : String) : Option (List (Nat × List Nat)) :=
+  if w == "-" then some [] else allSome ((w.splitOn ",").map parseIx)
+
+def isDec (w : String) : Bool := !w.isEmpty && w.length < 8 && w.toList.all Char.isDigit
+
+def parseOp (db : Db) (ws : List String) : Option Op :=
+  match ws with
+  | ["begin"] => some .begin
+  | ["rollback"] => some .rollback
+  | ["commit"] => some .commit
+  | ["vacuum"] => some .vacuum
+  | ["mkix"] => some .mkix
+  | ["analyze", r, m] => if isDec r && isDec m then some .analyze else none
+  | _ => (pStmt db ws).map .stmt
+
+structure St where
+  db : Db
+  /-- database at `begin` of the open session -/
+  saved : Option Db := none
+  failed : Bool := false
+
+def stepOp (D : Defects) (st : St) (op : Op) : St × String :=
+  if st.failed then (st, "-") else
+  match op with
+  | .begin => ({ st with saved := some (st.saved.getD st.db) }, "ok")
+  | .rollback => ({ st with db := st.saved.getD st.db, saved := none }, "ok")
+  | .commit => ({ st with saved := none }, "ok")
+  | .vacuum | .analyze | .mkix => (st, "ok")
+  | .stmt s =>
+    let (db', o) := execStmt D nullsFirstOfEngine st.db s
+    match s with
+    | .select _ => (st, "same " ++ showOutcome s o)
+    | _ =>
+      let out := showOutcome s o
+      ({ st with db := db', failed := out.startsWith "E" }, out)
+
+def runOps (D : Defects) : St → List Op → List String
+  | _, [] => []
+  | st, op :: ops =>
+    let (st', o) := stepOp D st op
+    o :: runOps D st' ops
+
+def step (D : Defects) (line : String) : String :=
+  match words line with
+  | "plan" :: dbw :: ixw :: "|" :: rest =>
+    match parseDb dbw, parseIxs ixw with
+    | some db, some ixs =>
+      if ixs.any (fun x => x.2.any (fun c => c ≥ (db.getD x.1 default).tys.length) || x.1 ≥ db.length) then "bad-op" else
+      match allSome ((splitStmts rest).map (parseOp db)) with
+      | none => "bad-op"
+      | some ops => joinWith " ; " (runOps D { db := db } ops)
+    | _, _ => "bad-op"
+  | _ => "bad-op"
+
+end AxVerif.Plan
+
 namespace AxVerif.Drivers
-
-def plan (_flags : List String) (_line : String) : String := "unimplemented"
-
+def plan (_flags : List String) (line : String) : String :=
+  AxVerif.Plan.step {} line
 end AxVerif.Drivers
